@@ -18,6 +18,23 @@ def simple_rule(rng, name):
                        bin_("==", atom(meth(var(root("F")), "Heavy", atom(cint(k)))), atom(cint(2 * k + 1)))])
     field = {"A": "F.U8", "B": "F.U16", "C": "F.U32", "D": "F.U64"}[name]
     acts = [assign("+=", path(field), atom(cint(rng.range(1, 3)))), assign("=", path("F.I"), bin_("+", V("F.I"), atom(cint(1))))]
+    shape = rng.weighted([("plain", 6), ("selector", 2), ("forget", 2), ("rhs", 2)])
+    if shape == "selector":
+        # an index expression that also occurs outside the selector (shared node), varying between facts
+        sel_ = atom(var(idx(path("F.A"), V("F.J"))))
+        cond = bin_("&&", bin_(">=", V("F.J"), atom(cint(0))), bin_(rng.choice(["==", "!=", "<"]), sel_, atom(cint(k % 3))))
+        acts.append(assign("=", path("F.In"), sel_))
+    elif shape == "forget":
+        # a condition read through a method; the change is announced by the text of the call
+        cond = bin_("<", atom(meth(var(root("F")), "GetI")), atom(cint(k + 2)))
+        acts = [assign("+=", path(field), atom(cint(1))), stmt(meth(var(root("F")), "Inc")),
+                stmt(call(rng.choice(["Forget", "Changed"]), atom(cstr("F.GetI()")))),
+                stmt(call("Changed", atom(cstr("F.I"))))]
+    elif shape == "rhs":
+        # the whole right-hand side is also an operand of the condition
+        e = bin_("+", V("F.J"), bin_("*", V("F.I"), atom(cint(2))))
+        cond = bin_("<", V("F.I16"), e)
+        acts.append(assign("=", path("F.I16"), e))
     if rng.chance(0.4):
         acts.append(stmt(call("Retract", atom(cstr(name)))))
     if rng.chance(0.15):
@@ -39,13 +56,15 @@ def facts(rng):
     return [["F", fact(I=rng.range(0, 2), J=rng.range(0, 1), A=[0, 1, 2], M={"a": 1}, P=sub())]]
 
 
-def scenario(rng, sid, maxlen=10):
+def scenario(rng, sid, maxlen=10, focus=None):
     pr = Printer()
     ops = []
     state = {}          # (lib, kb) -> set of active names (expected, for generation only)
     insts = []
     stored = []
     dirty = set()       # kbs that saw a rejected text: working memory holds garbage
+    loaded_into = {}    # (lib, kb) -> handle of the stream whose load produced the knowledge base there
+    sal = {}            # (lib, kb) -> {name: salience} of the active rules (as the generator expects them)
     n = rng.range(4, maxlen)
     kbs = ["K1"] if rng.chance(0.6) else ["K1", "K2"]
     ninst = 0
@@ -53,9 +72,11 @@ def scenario(rng, sid, maxlen=10):
         kb = rng.choice(kbs)
         lib = "L"
         active = state.setdefault((lib, kb), set())
-        kind = rng.weighted([("build", 4 if len(active) < 4 else 1), ("dup", 2 if active else 0), ("bad", 1), ("remove", 2 if active else 0),
+        forced = {"C12": ["build", "build", "store", "load"], "C16": ["build", "remove", "build", "remove"]}.get(focus, [])
+        kind = forced[step] if step < len(forced) and rng.chance(0.8) and (forced[step] == "build" or active) and (forced[step] != "load" or stored) else \
+            rng.weighted([("build", 4 if len(active) < 4 else 1), ("dup", 2 if active else 0), ("bad", 1), ("remove", 2 if active else 0),
                              ("inst", 3 if active else 0), ("call", 4 if insts else 0), ("iremove", 1 if insts else 0),
-                             ("store", 2 if active else 0), ("load", 2 if stored else 0), ("info", 1)])
+                             ("store", 3 if active else 0), ("load", 3 if stored else 0), ("info", 1)])
         if kind == "build":
             names = [x for x in NAMES if x not in active]
             names = rng.shuffle(names)[:rng.range(1, min(2, len(names)))] if names else []
@@ -64,6 +85,8 @@ def scenario(rng, sid, maxlen=10):
             rules = [simple_rule(rng, x) for x in names]
             ops.append({"op": "build", "lib": lib, "kb": kb, "wm": kb not in dirty, "text": pr.doc(rules), "rules": rules, "ftext": []})
             active |= set(names)
+            for rr in rules:
+                sal.setdefault((lib, kb), {})[rr["name"]] = rr["sal"]
         elif kind == "dup":
             # a grammatical resource re-using an active name (alone, or next to a new rule)
             d = rng.choice(sorted(active))
@@ -73,6 +96,7 @@ def scenario(rng, sid, maxlen=10):
                 extra = simple_rule(rng, fresh[0])
                 rules = [extra] + rules if rng.chance(0.5) else rules + [extra]
                 active.add(fresh[0])
+                sal.setdefault((lib, kb), {})[fresh[0]] = extra["sal"]
             if rng.chance(0.2):
                 rules = rules + [simple_rule(rng, rules[0]["name"])]   # duplicate inside the resource
             ops.append({"op": "build", "lib": lib, "kb": kb, "wm": kb not in dirty, "text": pr.doc(rules), "rules": rules, "ftext": [], "expect": "dup"})
@@ -101,20 +125,38 @@ def scenario(rng, sid, maxlen=10):
         elif kind == "store":
             h = "s%d" % len(stored)
             ops.append({"op": "store", "lib": lib, "kb": kb, "as": h})
-            stored.append((h, kb, set(active)))
+            # an instance of the stored knowledge base as it is now: the twin of what a load of the stream yields
+            ops.append({"op": "inst", "lib": lib, "kb": kb, "as": "o" + h})
+            sl = [sal.get((lib, kb), {}).get(x) for x in active]
+            stored.append((h, kb, set(active), len(set(sl)) == len(sl), dict(sal.get((lib, kb), {}))))
         elif kind == "load":
-            h, skb, sact = rng.choice(stored)
+            h, skb, sact, det, ssal = rng.choice(stored)
             ow = rng.chance(0.6)
             tlib = rng.choice(["L", "L", "L2"])
             ops.append({"op": "load", "lib": tlib, "from": h, "overwrite": ow})
+            took = ow or (tlib, skb) not in loaded_into and (tlib == "L2" or ("L", skb) not in state)
             if tlib == "L" and ow:
                 state[("L", skb)] = set(sact)
-            if tlib == "L2":
-                # instantiate and run what was loaded elsewhere
+                sal[("L", skb)] = dict(ssal)
+            if took:
+                loaded_into[(tlib, skb)] = h
+            if tlib == "L2" or (took and rng.chance(0.5)):
+                # instantiate and run what was loaded
                 ninst += 1
                 name = "i%d" % ninst
-                ops.append({"op": "inst", "lib": "L2", "kb": skb, "as": name})
+                ops.append({"op": "inst", "lib": tlib, "kb": skb, "as": name})
                 ops.append({"op": "fetch", "inst": name, "facts": facts(rng), "retErr": False})
+                if took:
+                    # the loaded knowledge base and the stored one on the same facts (same behaviour expected; the two
+                    # real runs are compared directly when no two active rules share a salience)
+                    fx = facts(rng)
+                    mx = rng.choice([3, 6])
+                    tw = "%s@%d" % (h, len(ops))
+                    for who in (name, "o" + h):
+                        ops.append({"op": "exec", "inst": who, "facts": fx, "max": mx, "retErr": False, "cancelAt": None, "listeners": 0,
+                                    "twin": tw, "det": det})
+                if tlib == "L":
+                    insts.append(name)
         else:
             ops.append({"op": "info", "lib": lib, "kb": kb})
     # closing round: instantiate every knowledge base and look at what matches
@@ -124,7 +166,12 @@ def scenario(rng, sid, maxlen=10):
         ops.append({"op": "fetch", "inst": "z%d" % ninst, "facts": facts(rng), "retErr": False})
         ops.append({"op": "exec", "inst": "z%d" % ninst, "facts": facts(rng), "max": 5, "retErr": False, "cancelAt": None, "listeners": 0})
         ops.append({"op": "info", "lib": "L", "kb": kb})
-    return {"id": sid, "profile": "stable", "ops": ops}
+    sc = {"id": sid, "profile": "stable", "ops": ops}
+    if any("GetI()" in (o.get("text") or "") for o in ops):
+        # a condition reads F.I through a method while other rules assign F.I without announcing it: outside the
+        # documented contract, so the from-scratch semantics is no oracle here (model correspondence still is)
+        sc["no_oracle"] = True
+    return sc
 
 
 if __name__ == "__main__":
